@@ -91,6 +91,8 @@ fn tex_demerits(p: &Params, b: i64, pen: i32, prev_fit: i32, fit: i32) -> i64 {
 }
 /// total demerits of a set of breaks (ending with the end of the list), None when some line is not within the tolerance
 fn total(list: &[ds::Horizontal], breaks: &[(usize, i32)], widths: &[i64], tol: i64, p: &Params) -> Option<i64> {
+    // TeX.2021.828: "if threshold>inf_bad then threshold:=inf_bad" - an overfull line (badness inf_bad+1) is never feasible
+    let tol = tol.min(10000);
     let (mut prev, mut fit, mut sum) = (None, 2, 0i64);
     for (k, (b, pen)) in breaks.iter().enumerate() {
         let w = *widths.get(k).unwrap_or(widths.last().unwrap());
@@ -209,7 +211,7 @@ fn optimal_breaks() {
             // TeX.2021.816: the paragraph ends with \penalty10000 \parfillskip
             list.push(pen(10000));
             list.push(glue(0, 1, GlueOrder::Fil, 0));
-            for widths in [&[6][..], &[8][..], &[5, 9][..], &[11][..]] { for tol in [200, 10000] {
+            for widths in [&[6][..], &[8][..], &[5, 9][..], &[11][..]] { for tol in [200, 10000, 20000] {
                 for p in [&params, &params2] {
                     if !check(&list, widths, tol, p, &mut stats) { return; }
                 }
